@@ -268,4 +268,39 @@ theorem tabrRun_map {κ} [DecidableEq κ] (key : Component → κ) (S : Componen
       · have hk : ¬ n.map key ∈ s.map (·.map key) := fun h => hc (hm.mp h)
         simp only [hk, hc, if_false, this, List.map_id n]
 
+/-! ### prefix queries: newest version under a prefix (MemoryStore.Get(prefix=true)), Data matching in the PIT -/
+
+/-- stored packets: (name, version), later puts of an Equal name replace earlier ones; answers with the index of the
+    put that is served, `none` when nothing is stored at or under the query -/
+def memNewest (puts : List (Name × Nat)) (q : Name) : Option Nat :=
+  let idx := puts.zipIdx
+  -- the live packet of each name is its last put
+  let live := idx.filter fun e => !(idx.any fun e2 => e2.2 > e.2 && decide (e2.1.1 = e.1.1))
+  match live.find? (fun e => decide (e.1.1 = q)) with
+  | some e => some e.2
+  | none =>
+    let under := live.filter fun e => isPrefix q e.1.1
+    (under.foldl (fun (best : Option ((Name × Nat) × Nat)) e =>
+      match best with
+      | none => some e
+      | some b => if e.1.2 > b.1.2 then some e else some b) none).map (·.2)
+
+/-- PIT entries (name, CanBePrefix) matched by a Data name arriving WITHOUT a usable token: the entry's name equals
+    the Data name, or is a prefix of it and the Interest allowed that; answers with the indices (of the first
+    insertion of each entry) -/
+def dataMatches (e : Name × Bool) (d : Name) : Bool := decide (e.1 = d) || (e.2 && isPrefix e.1 d)
+
+def pitNameMatch (ints : List (Name × Bool)) (d : Name) : List Nat :=
+  let idx := ints.zipIdx
+  let firsts := idx.filter fun e => !(idx.any fun e2 => e2.2 < e.2 && decide (e2.1 = e.1))
+  (firsts.filter fun e => dataMatches e.1 d).map (·.2)
+
+/-- ... and WITH the token of entry `t`: that entry, whatever the Data's name (the token rule) -/
+def pitTokenMatch (ints : List (Name × Bool)) (t : Nat) : List Nat :=
+  match ints[t]? with
+  | none => []
+  | some e => match (ints.zipIdx.find? fun e2 => decide (e2.1 = e)) with
+    | some f => [f.2]
+    | none => []
+
 end Ndn.C14
